@@ -657,6 +657,58 @@ def wrapper_namespace_without_prefix(ctx):
                          meta, repr(got)[:600], repr(ref)[:600])
 
 
+def lists_nones_and_wildcards(ctx):
+    """(a) lists given for repeating and for non-repeating parameters, with None items inside: the dict form with
+    unwrapping disabled sends what the keyword call sends; (b) an xsd:any among the wrapper's elements is a parameter
+    (a positional slot) like the elements around it: values line up and the reported counts include it."""
+    from suds.sax.element import Element
+
+    def kids(env):
+        fn = xmlread.find1(xmlread.find1(xmlread.parse(env), "Body"), "f")
+        return [[k["name"][1], k.get("text")] for k in fn["children"]]
+    schema = ('<xsd:element name="f"><xsd:complexType><xsd:sequence><xsd:element name="r" type="xsd:string" '
+              'maxOccurs="unbounded"/><xsd:element name="o" type="xsd:string" minOccurs="0" maxOccurs="unbounded"/>'
+              '<xsd:element name="single" type="xsd:string"/></xsd:sequence></xsd:complexType></xsd:element>')
+    w = wsdlkit.wsdl_doc(schema, "f", None)
+    cu, cr = wsdlkit.client(w, nosend=True), wsdlkit.client(w, nosend=True, unwrap=False)
+    for args, want in ((dict(r=["a", None, "b"], o=["x", None], single="s"),
+                        [["r", "a"], ["r", ""], ["r", "b"], ["o", "x"], ["single", "s"]]),
+                       (dict(r=["a"], o=[], single=["1", "2"]), [["r", "a"], ["single", "1"], ["single", "2"]]),
+                       (dict(r=[None], o=None, single="s"), [["r", ""], ["single", "s"]]),
+                       (dict(r=("a", "b"), o=("x",), single="s"), [["r", "a"], ["r", "b"], ["o", "x"], ["single", "s"]])):
+        meta = {"stream": "lists-and-nones", "args": repr(args)}
+        ctx.case(common.canon(meta), True)
+        got = []
+        for label, fn in (("keywords", lambda: cu.service.f(**args)), ("dict", lambda: cr.service.f(dict(args)))):
+            try:
+                got.append(kids(wsdlkit.envelope_bytes(fn())))
+            except Exception as e:
+                got.append("%s: %s: %s" % (label, type(e).__name__, e))
+        if got != [want, want]:
+            ctx.fail("dict with unwrap=False sends a different request", meta, got, [want, want])
+    schema2 = ('<xsd:element name="f"><xsd:complexType><xsd:sequence><xsd:element name="a" type="xsd:string"/><xsd:any/>'
+               '<xsd:element name="b" type="xsd:string"/></xsd:sequence></xsd:complexType></xsd:element>')
+    c = wsdlkit.client(wsdlkit.wsdl_doc(schema2, "f", None), nosend=True)
+    raw = Element("extra", ns=("q", "urn:q"))
+    raw.setText("r")
+    meta = {"stream": "wildcard-parameter"}
+    ctx.case(common.canon(meta), True)
+    try:
+        m = c.service.f.method
+        got = [[None if d[0] is None else str(d[0]) for d in m.binding.input.param_defs(m)],
+               kids(wsdlkit.envelope_bytes(c.service.f("1", raw, "3")))]
+        try:
+            c.service.f("1", raw, "3", "4")
+            got.append("accepted")
+        except TypeError as e:
+            got.append(str(e))
+    except Exception as e:
+        got = "%s: %s" % (type(e).__name__, e)
+    want = [["a", None, "b"], [["a", "1"], ["extra", "r"], ["b", "3"]], "f() takes 3 positional arguments but 4 were given"]
+    if got != want:
+        ctx.fail("client accepted or mis-reported a call the rule rejects", meta, got, want)
+
+
 def rpc_and_ports(ctx):
     """(C) the two binding-level sites around the parser: rpc operations bind positional and keyword values alike
     (None included), and same-named operations of two ports are each bound against their own parameters."""
@@ -742,6 +794,7 @@ def run(ctx):
     client_checks(ctx)
     rpc_and_ports(ctx)
     wrapper_namespace_without_prefix(ctx)
+    lists_nones_and_wildcards(ctx)
     empty_wrappers(ctx)
     repeating_and_foreign_typed_wrappers(ctx)
 
